@@ -113,9 +113,13 @@ def alpha_cmd(text, extra=None):
     for letter, value in reading.values.items():
         asmm = _native(value, NATIVE_PER_MM)
         asin = _native(value, NATIVE_PER_IN)
-        if asmm is None or asin is None:
+        if asmm is None or (asin is None and letter != "F"):
             big = True
             continue
+        if asin is None:
+            # a feed rate that only fits the mm reading (the inch reading is never used for it
+            # while the reader is in mm mode); keep the word with a saturated inch reading
+            asin = INT_LIMIT
         wm[letter] = asmm
         wi[letter] = asin
     rec = {
@@ -129,6 +133,7 @@ def alpha_cmd(text, extra=None):
         "big": big,
         "ptxt": reading.params,
         "cls": "",
+        "kind": "",
     }
     if extra:
         rec.update(extra)
